@@ -131,6 +131,8 @@ def generate(rng, tier):
                   "net": gen_net(rng, fault_rate, kinds)}
             if op["own_id"] is not None and rng.random() < 0.08:
                 op["own_id"] = ""            # an id that is there but empty (e.g. forwarded as received)
+            elif op["own_id"] is not None and rng.random() < 0.15:
+                op["own_id"] = rng.choice([f"trace {k} ", f" id{k}", f"a\tb {k}"])      # blanks are part of the id
             if op["own_id"] is not None and rng.random() < 0.2:
                 # the id is not a plain str: header values may be bytes (the package's own adapters send such)
                 op["own_id_form"] = rng.choice(["bytes", "strsub"])
